@@ -15,10 +15,29 @@ def s32(b, off):
     return struct.unpack_from(">i", b, off)[0]
 
 
+class Owners(dict):
+    """block -> first claimant; `shared[block]` = further claimants (a block reached from two entries: the state a wrongly accepted
+    undelete leaves behind - every claimant other than the object operated on is a bystander)"""
+    def __init__(self):
+        super().__init__()
+        self.shared = {}
+
+    def claim(self, q, role):
+        if q in self:
+            if self[q] != role:
+                self.shared.setdefault(q, []).append(role)
+        else:
+            self[q] = role
+
+    def roles(self, q):
+        r = self.get(q)
+        return ([r] if r else []) + self.shared.get(q, [])
+
+
 def owners(img, n, flav, lagging=()):
     """tolerant walk: block -> (role, path) ; role in root, bitmap, dir, cache, hdr, ext, data.
        `lagging`: folded paths of files open for writing - their on-disk block lists may be stale, only their header is attributed"""
-    own = {}
+    own = Owners()
     root = n // 2
     bs = 512 if flav & 1 else 488
 
@@ -58,40 +77,42 @@ def owners(img, n, flav, lagging=()):
         for slot in range(72):
             e = s32(b, 24 + 4 * slot)
             steps = 0
-            while 2 <= e < n and steps < 200 and e not in own:
+            seen_here = set()
+            while 2 <= e < n and steps < 200 and e not in seen_here and not (e in own and own[e][0] in ("dir", "hdr", "root", "bitmap", "cache")):
+                seen_here.add(e)
                 eb = blk(e)
                 nl = min(eb[432], 30)
                 name = bytes(eb[433:433 + nl])
                 st = s32(eb, 508)
                 p = path + (name,)
                 if st == 2:
-                    own[e] = ("dir", p)
+                    own.claim(e, ("dir", p))
                     walk_dir(e, p, depth + 1)
                 elif st == -3 and tuple(gen.fold(flav, c) for c in p) in lagging:
-                    own[e] = ("hdr", p)
+                    own.claim(e, ("hdr", p))
                 elif st == -3:
-                    own[e] = ("hdr", p)
+                    own.claim(e, ("hdr", p))
                     size = get32(eb, 324)
                     d_ = (size + bs - 1) // bs
                     for i in range(min(d_, 72)):
                         q = s32(eb, 24 + 4 * (71 - i))
-                        if 2 <= q < n and q not in own:
-                            own[q] = ("data", p)
+                        if 2 <= q < n:
+                            own.claim(q, ("data", p))
                     x = s32(eb, 504)
                     left = d_ - 72
                     st2 = 0
                     while 2 <= x < n and st2 < 400 and left > 0:
-                        own[x] = ("ext", p)
+                        own.claim(x, ("ext", p))
                         xb = blk(x)
                         for i in range(min(left, 72)):
                             q = s32(xb, 24 + 4 * (71 - i))
-                            if 2 <= q < n and q not in own:
-                                own[q] = ("data", p)
+                            if 2 <= q < n:
+                                own.claim(q, ("data", p))
                         left -= 72
                         x = s32(xb, 504)
                         st2 += 1
                 else:
-                    own[e] = ("hdr", p)
+                    own.claim(e, ("hdr", p))
                 e = s32(eb, 496)
                 steps += 1
     walk_dir(root, (), 0)
@@ -233,14 +254,34 @@ def build_cache(ctx):
     return L, ops, flav
 
 
+def build_undel(ctx):
+    """undelete scenarios (checks/undel.py): the blocks of the deleted entry still free or taken meanwhile by a bystander (the
+    extension block below the header, in a hole a new file takes first); then calls on the undeleted entry and new files"""
+    from . import undel
+    rng = ctx.rng
+    flav = rng.choice(gen.FLAVOURS)
+    setup, seq, meta = undel.scenario(rng, flav)
+    L = gen.dev_create("DD", flav) + ["mountdev 0", "mount 0 0"] + setup + ["dump $W/start", "wlog $W/wlog full"]
+    ops = []
+    for cmd in seq:
+        L.append("wmark %d" % len(ops))
+        L.append(cmd)
+        ops.append(cmd)
+    L += ["wlog off", "umount", "umountdev"]
+    return L, ops, flav
+
+
 def run(ctx):
     proof = common.proof_status(ctx)
+    nu = 24 if ctx.tier == "quick" else 400
     nh = 10 if ctx.tier == "quick" else 300
     nr = 20 if ctx.tier == "quick" else 400
     nc = 20 if ctx.tier == "quick" else 400
     nm = 6 if ctx.tier == "quick" else 100      # volumes with three bitmap pages: most updates dirty one page, not the last
-    for hi in range(nh + nr + nc + nm):
-        if hi >= nh + nr + nc:
+    for hi in range(nh + nr + nc + nm + nu):
+        if hi >= nh + nr + nc + nm:
+            L, ops, flav = build_undel(ctx)
+        elif hi >= nh + nr + nc:
             L, ops, flav = build(ctx, kind="HF:12200")
         else:
             L, ops, flav = build(ctx) if hi < nh else (build_reuse(ctx, hi - nh) if hi < nh + nr else build_cache(ctx))
@@ -289,6 +330,8 @@ def run(ctx):
                     closing = wopen.pop(t[1], None)
             elif t[0] in ("mkdir", "rm", "comment", "prot", "lookup"):
                 objs.append(P(t[1]) + (bytes.fromhex(t[2])[:30],))
+            elif t[0] == "undel" and len(t) > 3:
+                objs.append(P(t[1]) + (bytes.fromhex(t[3])[:30],))
             elif t[0] == "mv":
                 objs.append(P(t[1]) + (bytes.fromhex(t[2])[:30],))
                 objs.append(P(t[3]) + (bytes.fromhex(t[4])[:30],))
@@ -313,13 +356,11 @@ def run(ctx):
                     bb = b + part
                     new = data[part * 512:(part + 1) * 512]
                     old = bytes(img[bb * 512:(bb + 1) * 512])
-                    role = own.get(bb)
                     verdict = None
+                    role = None
                     if bb == root:
                         flag = s32(new, 312)
-                    if role is None or bb < 2:
-                        pass
-                    else:
+                    for role in (own.roles(bb) if bb >= 2 else []):
                         kind, path = role
                         fp = fold(path)
                         if kind in ("root", "bitmap"):
@@ -341,6 +382,8 @@ def run(ctx):
                                 pass
                             else:
                                 verdict = "write changes the %s block of another file (%s)" % ({"hdr": "header", "ext": "extension", "data": "data"}[kind], "/".join(hexs(c) for c in path))
+                        if verdict:
+                            break
                     if verdict:
                         ctx.fail("oracle", verdict, {"flavour": flav, "operation": cmd, "operated_on": ["/".join(hexs(c) for c in o) for o in objs], "write_index": wi, "block": bb,
                                                      "script": L[: opline[oi]]}, expected="free block, own block, parent metadata, or sibling link", actual={"block": bb, "owner": [role[0], "/".join(hexs(c) for c in role[1])]})
